@@ -54,7 +54,11 @@ RULE = ('sweep: every BaseException subclass exported by builtins (69 names on 3
         'the exception coming from below, changes args / type-specific C-level fields '
         '(filename, strerror, value, name, path, reason, lineno, code, obj) / __slots__ values / '
         'a __dict__ attribute on the caught object and re-raises it with bare `raise` or `raise '
-        'exc`; the recorder runs again right before the re-raise. Non-trivial = '
+        'exc`; the recorder runs again right before the re-raise. Raiser objects with format '
+        'metacharacters in their repr (sites partial / callobj, generated and in the exhaustive '
+        'sweep brace-reprs: 8 callable-instance reprs and 6 functools.partial arguments with '
+        '{..}, {}, {0}, {x}, unbalanced braces, %s, %(a)s, 100% x 4 link shapes x scope x 4 '
+        'exceptions), registered with gin.external_configurable(obj, name=). Non-trivial = '
         'the original has a public data attribute besides args, or its constructor has required '
         'arguments, or >=2 configurables are on the stack. Distinct = distinct case JSON.')
 ASSUMPTIONS = [
@@ -107,6 +111,8 @@ FLOORS = {
     'user:mi-layout-base-not-first': (0.03, 'user:generated'),
     'twin:first': 0.03,
     'catch:reraised': 0.05,
+    'raiser-repr:braces': 0.02,
+    'raiser-repr:percent': 0.005,
     'catch:mutated-outside-dict': 0.04,
 }
 TECHNIQUE = ('bounded exhaustive sweep over the builtin exception hierarchy x raise site x depth x '
@@ -430,12 +436,23 @@ _catch_link = st.builds(
 _link = st.one_of(_plain_link, _plain_link, _plain_link, _catch_link)
 
 
+# raisers whose repr() contains format-string metacharacters: callable instances with such a
+# __repr__ and functools.partial objects carrying such arguments (registered through
+# gin.external_configurable(obj, name=...)); none of the texts contains a configurable or scope name
+OBJ_REPRS = ["PyObj({'a': 1})", '<PyObj {x}>', '<PyObj {}>', '<PyObj {0}>', '<PyObj {{ }>', 'PyObj(}',
+             '<PyObj %s %(a)s 100%>', '<PyObj {x!r:>{w}} %d>']
+PARTIAL_ARGS = ["{'a': 1}", '{1, 2}', "'{}'", "'{0} {x}'", "'%s %(a)s 100%'", "['{', '}}']"]
+
+
 def _chain(draw):
-  site = draw(st.sampled_from(['fn', 'fn', 'ctor', 'ctor_new', 'method']))
+  site = draw(st.sampled_from(['fn', 'fn', 'fn', 'ctor', 'ctor', 'ctor_new', 'method', 'method',
+                               'partial', 'callobj']))
   return {
       'site': site,
-      'how': 'register' if site == 'method' else draw(
-          st.sampled_from(['configurable', 'configurable', 'register', 'external'])),
+      'style': draw(st.integers(0, 7)),
+      'how': 'register' if site == 'method' else 'external' if site in (
+          'partial', 'callobj') else draw(
+              st.sampled_from(['configurable', 'configurable', 'register', 'external'])),
       'mhow': draw(st.sampled_from(['register', 'configurable'])),
       'links': draw(st.lists(_link, max_size=3)),
       'inter': draw(st.sampled_from(['fn', 'fn', 'cls'])),
@@ -521,7 +538,28 @@ def sweep_mi_pairs(tier):
   return cases, True
 
 
-SWEEPS = {'builtin-classes': sweep_builtins, 'mi-ordered-pairs': sweep_mi_pairs}
+def sweep_reprs(tier):
+  """Raisers whose repr contains '{', '}' or '%': every style x depth/link shape x scope."""
+  del tier
+  exprs = [('KeyError', "KeyError('k')"), ('OSError', "OSError(2, 'No such thing', '/x/file')"),
+           ('ExceptionGroup', "ExceptionGroup('eg', [ValueError(1), TypeError('t')])"),
+           ('KeyboardInterrupt', "KeyboardInterrupt('a message')")]
+  call, ref = {'kind': 'call', 'scope': ''}, {'kind': 'ref', 'scope': ''}
+  catch = {'kind': 'catch', 'scope': '', 'mut': ['args'], 'reraise': 'bare'}
+  cases = []
+  for site, n in (('callobj', len(OBJ_REPRS)), ('partial', len(PARTIAL_ARGS))):
+    for style in range(n):
+      for links in ([], [call], [ref], [catch, ref]):
+        for scope in ('', 'zsa/zsb'):
+          for name, expr in exprs:
+            cases.append({'exc': {'builtin': name, 'expr': expr}, 'site': site, 'style': style,
+                          'how': 'external', 'mhow': 'register', 'links': links, 'inter': 'fn',
+                          'scope': scope, 'cause': False, 'origin': 'sweep'})
+  return cases, True
+
+
+SWEEPS = {'builtin-classes': sweep_builtins, 'mi-ordered-pairs': sweep_mi_pairs,
+          'brace-reprs': sweep_reprs}
 
 
 def build_chain(case):
@@ -554,6 +592,24 @@ def build_chain(case):
     invoke[last] = f'{py}()' if how == 'configurable' else f"gin.get_configurable('{name}')()"
     viaref[last] = 'x'
     inner, code_name = name, py
+  elif site == 'partial':
+    py = f'pyfn{last}'
+    arg = PARTIAL_ARGS[case.get('style', 0) % len(PARTIAL_ARGS)]
+    out = ['import functools'] + out
+    out += [f'def {py}(cfg, x=None):'] + ['  ' + l for l in raiser_body]
+    out += [f'pypartial = functools.partial({py}, {arg})',
+            f"gin.external_configurable(pypartial, name='{name}')"]
+    invoke[last] = f"gin.get_configurable('{name}')()"
+    viaref[last] = 'x'
+    inner, code_name = name, py
+  elif site == 'callobj':
+    text = OBJ_REPRS[case.get('style', 0) % len(OBJ_REPRS)]
+    out += [f'class PyObj{last}:', '  def __repr__(self):', f'    return {text!r}',
+            '  def __call__(self, x=None):'] + ['    ' + l for l in raiser_body]
+    out += [f'pyobj = PyObj{last}()', f"gin.external_configurable(pyobj, name='{name}')"]
+    invoke[last] = f"gin.get_configurable('{name}')()"
+    viaref[last] = 'x'
+    inner, code_name = name, '__call__'
   elif site in ('ctor', 'ctor_new'):
     py = f'PyK{last}'
     meth = '__init__' if site == 'ctor' else '__new__'
@@ -914,6 +970,13 @@ def check_case(case):
     labels.add('chain:varied')
   labels.add('family:' + family(cls))
   labels.add('site:' + case['site'])
+  if case['site'] in ('partial', 'callobj'):
+    text = (PARTIAL_ARGS if case['site'] == 'partial' else OBJ_REPRS)
+    text = text[case.get('style', 0) % len(text)]
+    if '{' in text or '}' in text:
+      labels.add('raiser-repr:braces')
+    if '%' in text:
+      labels.add('raiser-repr:percent')
   labels.add('how:' + case['how'])
   if case['site'] == 'method':
     labels.add('method-how:' + case['mhow'])
